@@ -75,6 +75,7 @@ func runRapid(cfg *Cfg) {
 	wktLines(out, cfg, 4*drawSeeds)
 	anyHintPass(out, cfg)
 	ownWktPass(out, cfg)
+	aliasEnumPass(out, cfg)
 	for _, t := range targets {
 		if est := expectedNodes(t.S, 0, 0, map[[2]int]float64{}); est <= 20000 {
 			// draw-level correspondence with the Lean model (RAPID_PROTOCOL.md)
